@@ -184,6 +184,7 @@ func checkC01(c *Ctx) {
 	checkC01Edges(c)
 	checkC01SignalsInExpressions(c)
 	checkC01AliasesAfterShrink(c)
+	checkC01ManyDistinct(c)
 
 	c.Set("exhaustive", true)
 	c.Set("bounds", map[string]any{"MaxDepth": maxDepth})
